@@ -44,5 +44,10 @@ func writeHeader(headerPath string, header Header) error {
 	if err != nil {
 		return err
 	}
-	return os.WriteFile(headerPath, data, 0o666)
+	// Replace the header atomically: a crash must not leave it empty or torn.
+	tmpPath := headerPath + ".tmp"
+	if err = os.WriteFile(tmpPath, data, 0o666); err != nil {
+		return err
+	}
+	return os.Rename(tmpPath, headerPath)
 }
